@@ -36,8 +36,25 @@ def _model(E, w):
     m.objective = "DM_B"
     direction = E.pick("direction", ["max", "min"])
     m.objective_direction = direction
-    E.note(symbolic=list(w[k]), direction=direction)
+    # the state the analysis finds: as built / a gene the user knocked out earlier (its reactions are closed, the flag is
+    # False: a later deletion of another gene has to count it as absent) / an uncapped route EX_A -> R2 -> DM_B (knocked-out
+    # problems are then unbounded unless R2 is among the deleted: "not-a-number otherwise")
+    scenario = E.pick("pre_state", ["as-built", "gene-already-knocked-out", "uncapped-route"])
+    PRE_KO.clear()
+    if scenario == "gene-already-knocked-out":
+        g = E.pick("which_gene", ["g3", "g1"])
+        m.genes.get_by_id(g).knock_out()
+        PRE_KO.add(g)
+    elif scenario == "uncapped-route":
+        inf = float("inf")
+        for rid, b in (("EX_A", (-inf, None)), ("R2", (None, inf)), ("DM_B", (None, inf))):
+            r = m.reactions.get_by_id(rid)
+            r.bounds = (b[0] if b[0] is not None else r.lower_bound, b[1] if b[1] is not None else r.upper_bound)
+    E.note(symbolic=list(w[k]), direction=direction, pre_state=scenario, pre_knocked=sorted(PRE_KO))
     return m, ids, direction
+
+
+PRE_KO = set()      # genes the user knocked out before the analysis on the current path
 
 
 def _oracle(E, m, zeroed, direction, tag):
@@ -49,7 +66,7 @@ def _oracle(E, m, zeroed, direction, tag):
 
 
 def _zeroed_by_genes(absent):
-    return [rid for rid, t in RULES.items() if t is not None and not truth(t, set(absent))]
+    return [rid for rid, t in RULES.items() if t is not None and not truth(t, set(absent) | PRE_KO)]
 
 
 def _is_nan(x):
@@ -193,6 +210,7 @@ def c06_moma(E, w=(("EX_A",), ("DM_B",))):
         rules = RULES
     else:
         env.for_path(E)
+        PRE_KO.clear()
         m = networks.build(tid)
         ids = [r.id for r in m.reactions]
         networks.symbolic_bounds(E, m, which=[E.pick("symbolic_reaction", ["DRAIN", "EX_A"] if tid == "T9" else ["DRAIN", "SRC"])])
@@ -221,7 +239,7 @@ def c06_moma(E, w=(("EX_A",), ("DM_B",))):
     def zeroed_of(x):
         if entity == "reaction":
             return [x]
-        return [rid for rid, t in rules.items() if t is not None and not truth(t, {x})]
+        return [rid for rid, t in rules.items() if t is not None and not truth(t, {x} | PRE_KO)]
     before = observe(m)
     start = len(E.solve_log)
     fn = single_reaction_deletion if entity == "reaction" else single_gene_deletion
